@@ -1032,7 +1032,10 @@ func (sc *SCtx) seen(x *ECall) (Val, error) {
 
 // errIs is the uninterpreted predicate behind errors.Is.
 func (g *Gen) errIs(e, target *Term) *Term {
-	return App("vp_errIs", SBool, e, target)
+	r := App("vp_errIs", SBool, e, target)
+	// errors.Is(nil, t) == (t == nil)
+	g.assume(Implies(Eq(e, IntLit(0)), Eq(r, Eq(target, IntLit(0)))))
+	return r
 }
 
 // defineCall expands a specification macro.
